@@ -223,3 +223,186 @@ def gen_rw_shard(args) -> dict:
         cases.append(rc)
     write_shard(out_path, data["schemas"], cases)
     return {"path": out_path, "cases": len(cases)}
+
+
+# ------------------------------------------------------------------ outcome probes (C06/C10)
+def probe(cls, data: bytes) -> dict:
+    """One complete run of kio's decoder on `data`; observed at its return / raise."""
+    from kio.serial.errors import BufferUnderflow, SerialError
+    src, result, exc, consumed = decode_recorded(cls, data, budget=4 * len(data) + 64)
+    out = {"consumed": consumed, "reads": RecSource.nreads(src), "mro": [], "serial": False,
+           "result": result, "exc": exc}
+    if exc is None:
+        out["out"] = "returned"
+    elif isinstance(exc, StepBudgetExceeded):
+        out["out"] = "budget"
+    elif type(exc) is BufferUnderflow:
+        out["out"] = "underflow"
+        out["serial"] = True
+        out["mro"] = [c.__name__ for c in type(exc).__mro__]
+    else:
+        out["out"] = "raised"
+        out["serial"] = isinstance(exc, SerialError)
+        out["mro"] = [c.__name__ for c in type(exc).__mro__]
+    return out
+
+
+def cut_positions(n: int, boundaries: list[int], rng: random.Random, all_below: int) -> list[int]:
+    if n <= all_below:
+        return list(range(n))
+    ks = set()
+    for b in boundaries:
+        for d in (-2, -1, 0, 1, 2):
+            if 0 <= b + d < n:
+                ks.add(b + d)
+    ks.update(rng.randrange(n) for _ in range(64))
+    ks.update([0, 1, n - 1, n - 2])
+    return sorted(k for k in ks if 0 <= k < n)
+
+
+def read_boundaries(cls, data: bytes) -> list[tuple[int, int]]:
+    """(offset, size) of every read kio issues when decoding `data` successfully."""
+    src, result, exc, consumed = decode_recorded(cls, data, budget=4 * len(data) + 64)
+    out, pos = [], 0
+    for e in RecSource.events(src):
+        if e["op"] == "r":
+            out.append((pos, e["got"]))
+            pos += e["got"]
+    return out
+
+
+def gen_trunc_shard(args) -> dict:
+    in_path, encoded, out_path, seed, all_below = args
+    project.all_entity_classes()
+    with open(in_path) as f:
+        data = json.load(f)
+    enc = {e["id"]: e for e in encoded}
+    import importlib
+    cases, nprobes = [], 0
+    for c in data["cases"]:
+        raw = project.unruns(enc[c["id"]]["b"])
+        mod, _, qual = c["sid"].partition(":")
+        cls = getattr(importlib.import_module(mod), qual)
+        rng = random.Random(seed * 131 + len(cases))
+        bounds = [o for o, _ in read_boundaries(cls, raw)]
+        probes = []
+        for k in cut_positions(len(raw), bounds, rng, all_below):
+            p = probe(cls, raw[:k])
+            probes.append({"k": k, "out": p["out"], "consumed": p["consumed"], "reads": p["reads"],
+                           "exc": "" if p["exc"] is None else type(p["exc"]).__name__})
+        nprobes += len(probes)
+        cases.append({"id": c["id"], "mode": "trunc", "sid": c["sid"], "value": c["value"],
+                      "enc": project.runs(raw), "probes": probes})
+    write_shard(out_path, data["schemas"], cases)
+    return {"path": out_path, "cases": len(cases), "probes": nprobes}
+
+
+INTERESTING = [0x00, 0x01, 0x02, 0x7F, 0x80, 0xFF]
+
+
+def mutations(raw: bytes, reads: list[tuple[int, int]], rng: random.Random, count: int) -> list[bytes]:
+    """Role-directed corruptions of a valid encoding: the read boundaries are the roles
+    (1-byte reads: varint bytes, markers, booleans; 2/4-byte reads: length prefixes and
+    integers; long reads: payloads)."""
+    out = []
+    n = len(raw)
+
+    def put(pos, bs):
+        b = bytearray(raw)
+        b[pos:pos + len(bs)] = bs
+        return bytes(b)
+
+    heads = [(o, s) for o, s in reads if s > 0] or [(0, 0)]
+    for _ in range(count * 3):
+        if len(out) >= count:
+            break
+        o, s = rng.choice(heads)
+        kind = rng.randrange(10)
+        if n == 0:
+            out.append(bytes(rng.randrange(256) for _ in range(rng.randrange(0, 12))))
+            continue
+        if kind == 0:                                  # overwrite first byte of a role
+            out.append(put(o, bytes([rng.choice(INTERESTING)])))
+        elif kind == 1 and s in (2, 4, 8):             # whole fixed-width prefix / integer
+            out.append(put(o, rng.choice([b"\xff" * s, b"\x7f" + b"\xff" * (s - 1),
+                                          b"\x80" + b"\x00" * (s - 1), b"\x00" * s,
+                                          b"\xff" * (s - 1) + b"\xfe",
+                                          (n + rng.choice([-1, 0, 1])).to_bytes(8, "big")[-s:]])))
+        elif kind == 2 and s == 1:                     # flip a continuation bit
+            out.append(put(o, bytes([raw[o] ^ 0x80])))
+        elif kind == 3 and s == 1:                     # length / count / tag off by one or huge
+            out.append(put(o, bytes([(raw[o] + rng.choice([1, -1, 2, 0x40])) & 0xFF])))
+        elif kind == 4:                                # insert a byte at a role boundary
+            out.append(raw[:o] + bytes([rng.choice(INTERESTING)]) + raw[o:])
+        elif kind == 5 and n > 1:                      # delete a byte at a role boundary
+            out.append(raw[:o] + raw[o + 1:])
+        elif kind == 6:                                # two independent corruptions
+            o2, _ = rng.choice(heads)
+            b = bytearray(put(o, bytes([rng.choice(INTERESTING)])))
+            b[o2] = rng.choice(INTERESTING)
+            out.append(bytes(b))
+        elif kind == 7:                                # varint run: ff ff ff ff ff (too long)
+            out.append(raw[:o] + b"\xff" * rng.choice([4, 5, 6]) + raw[o + 1:])
+        elif kind == 8:                                # corrupt + truncate
+            b = put(o, bytes([rng.choice(INTERESTING)]))
+            out.append(b[: rng.randrange(o, n + 1)])
+        else:                                          # random bytes
+            out.append(bytes(rng.choice(INTERESTING + [rng.randrange(256)])
+                             for _ in range(rng.randrange(0, 24))))
+    return out[:count]
+
+
+def gen_mut_shard(args) -> dict:
+    in_path, encoded, out_path, seed, per_case, check_every = args
+    project.all_entity_classes()
+    with open(in_path) as f:
+        data = json.load(f)
+    enc = {e["id"]: e for e in encoded}
+    import importlib
+    cases, nprobes = [], 0
+    for c in data["cases"]:
+        raw = project.unruns(enc[c["id"]]["b"])
+        mod, _, qual = c["sid"].partition(":")
+        cls = getattr(importlib.import_module(mod), qual)
+        schema = project.project_schema(cls)
+        rng = random.Random(seed * 733 + len(cases))
+        reads = read_boundaries(cls, raw)
+        probes = []
+        for i, m in enumerate(mutations(raw, reads, rng, per_case)):
+            p = probe(cls, m)
+            pr = {"b": project.runs(m), "out": p["out"], "mro": p["mro"], "serial": p["serial"],
+                  "consumed": p["consumed"], "reads": p["reads"], "rval": project.NULL,
+                  "reenc": True, "check": False,
+                  "exc": "" if p["exc"] is None else repr(p["exc"])[:200]}
+            if p["out"] == "returned":
+                pr["rval"] = project.project_entity(p["result"], schema)
+                sink, wexc = encode_recorded(cls, p["result"])
+                pr["reenc"] = wexc is None
+                if wexc is not None:
+                    pr["exc"] = "re-encode: " + repr(wexc)[:200]
+                pr["check"] = (i % check_every == 0) and len(m) <= 600
+            probes.append(pr)
+        nprobes += len(probes)
+        cases.append({"id": c["id"], "mode": "mut", "sid": c["sid"], "value": c["value"],
+                      "enc": project.runs(raw), "probes": probes})
+    write_shard(out_path, data["schemas"], cases)
+    return {"path": out_path, "cases": len(cases), "probes": nprobes}
+
+
+def gen_probe_inputs(args) -> dict:
+    """Worker: (class, value) pairs, canonical variant, for the probe checks' pass 1."""
+    path, class_slice, per_class, seed, ms_timestamps = args
+    classes = project.all_entity_classes()
+    classes.sort(key=project.sid_of)
+    lo, hi = class_slice
+    schemas, cases = {}, []
+    for ci, cls in enumerate(classes[lo:hi], start=lo):
+        schema = project.project_schema(cls)
+        schemas[schema["sid"]] = schema
+        for k in range(per_class):
+            s = Sampler(seed * 1000211 + ci * 107 + k, profile=["max", "mixed", "min"][k % 3],
+                        ms_timestamps=ms_timestamps, wire_domain=True)
+            cases.append({"id": f"p{ci}_{k}", "sid": schema["sid"], "value": s.value(schema, budget=120),
+                          "var": CANON_VAR})
+    write_shard(path, schemas, cases)
+    return {"path": path, "cases": len(cases)}
